@@ -458,6 +458,10 @@ func (c *ctx) exhaustive(tees []int) {
 						}
 						sc := scenario{others: []other{f1}, clear: segs(one, h, f, a), prot: p,
 							results: []negRes{{mask: 2}, {mask: 0}}, domain: n % 4, explicit: n%3 == 0}
+						if !one && n%3 == 1 {
+							// every unit that starts a segment arrives split across two reads
+							sc.split = []int{0, 1 + n%17, 1 + n%29, 1 + n%7}
+						}
 						n++
 						tt := tees
 						if r.Quick() && n%4 != 0 {
@@ -575,6 +579,15 @@ func (c *ctx) random(n int, tees []int) {
 			}
 		}
 		sc.clear = clear
+		if rnd.Chance(1, 3) {
+			// some units arrive split across two reads
+			sc.split = make([]int, len(clear))
+			for k := 1; k < len(clear); k++ {
+				if rnd.Chance(1, 2) {
+					sc.split[k] = 1 + rnd.Intn(40)
+				}
+			}
+		}
 		// TLS phase
 		np := rnd.Intn(4)
 		for k := 0; k < np; k++ {
